@@ -109,7 +109,7 @@ class Policy:
             key = None
             val = None
             try:
-                key, val = line.split('=')
+                key, val = line.split('=', 1)  # Only split on the first '='; values (i.e.: gss-* key exchange names ending in base64 padding) may contain more.
             except ValueError as ve:
                 raise ValueError("could not parse line: %s" % line) from ve
 
